@@ -583,6 +583,7 @@ def symbolic_comprehension(eng, n, fr, kind, first):
             return filtered_comprehension(eng, n, fr, kind, first)
         raise Unsupported("filtered / nested comprehension over a symbolic sequence")
     length, getter = as_sequence(eng, first)
+    upstream = (first, first.seq, True) if isinstance(first, Iter) and not first.consumed and kind == "gen" else None
     bulk = _bulk_dict_pop(eng, n, fr, kind, length, getter)
     if bulk is not None:
         if isinstance(first, Iter):
@@ -652,7 +653,9 @@ def symbolic_comprehension(eng, n, fr, kind, first):
         if proto is not None:
             p.proto = proto
     if kind == "gen":
-        return Iter(p)
+        out = Iter(p)
+        out.source = upstream  # a generator over a one-shot iterator: a consumer that stops early leaves the rest in THAT iterator
+        return out
     if kind == "list":
         return p
     raise Unsupported("set comprehension over a symbolic sequence")
@@ -671,6 +674,7 @@ def filtered_comprehension(eng, n, fr, kind, first):
 
     g = n.generators[0]
     length, getter = as_sequence(eng, first)
+    upstream = (first, first.seq, False) if isinstance(first, Iter) and not first.consumed and kind == "gen" else None
     nz = length.z if isinstance(length, Sym) else zint(length)
     i = z3.Int(fresh_name("fi"))
     from .values import next_uid as _next_uid
@@ -727,10 +731,17 @@ def filtered_comprehension(eng, n, fr, kind, first):
             raise Unsupported(f"filtered comprehension element of type {type(x).__name__} over a symbolic sequence")
     p = PList()
     p.items, p.kinds, p.tup, p.proto = None, kinds, isinstance(vv, tuple), proto
+    def _gen(p):
+        out = Iter(p)
+        out.source = upstream
+        return out
+
     if cond is True:  # nothing is filtered: the pointwise image
         p.n = z3.simplify(nz)
         p.cols = [z3.Lambda([i], t) for t in terms]
-        return Iter(p) if kind == "gen" else p
+        if upstream is not None:
+            upstream = upstream[:2] + (True,)
+        return _gen(p) if kind == "gen" else p
     eng.assumptions.add(FILTER_MODEL)
     tag = fresh_name("flt")
     N = z3.Int(tag + "_N")
@@ -743,7 +754,7 @@ def filtered_comprehension(eng, n, fr, kind, first):
     p.n = N
     p.cols = [z3.Lambda([m], z3.substitute(t, (i, K(m)))) for t in terms]
     eng.ghost.setdefault("filters", []).append(dict(N=N, K=K, R=R, n=nz, cond=holds, out=p))
-    return Iter(p) if kind == "gen" else p
+    return _gen(p) if kind == "gen" else p
 
 
 def filter_axioms(nz, holds, N, K, R, i, m, m2):
